@@ -389,7 +389,7 @@ def _cli_total(job):
         ws.write(w, 'patches/p.patch', patch)
         ws.write(w, 'patches/q.patch', b'')
         ws.write(w, 'series', series)
-        rc, so, se = ws.push(w, ['-a', '-q', '--threads', '1' if len(patch) % 2 else '2'], timeout=20)
+        rc, so, se = ws.push(w, ['-a', '-q', '--threads', '1' if len(patch) % 2 else '2'], timeout=20, retry_ok=True)
         return rc, se
     finally:
         ws.rmws(w)
